@@ -431,3 +431,36 @@ func VC_C04_call_history() {
 	}
 	verifReached("C04.history")
 }
+
+// VC_C04_variadic_in_typed: In on a purely variadic function whose alternatives are given
+// as typed slices ([]int{...}), three of them with lengths 2, 1, 2: a call matches iff it
+// equals one alternative element by element.
+func VC_C04_variadic_in_typed() {
+	vEnv()
+	defer func() {
+		if e := recover(); e != nil {
+			verifAssert(false, "C04.variadic-in-typed.no-panic")
+		}
+	}()
+	w, err := CreateWhen(nil, vFV, nil, []interface{}{-1}, false)
+	verifAssert(err == nil, "C04.variadic-in-typed.create-ok")
+	a1, a2, b1, c1, c2 := verifInt("a1"), verifInt("a2"), verifInt("b1"), verifInt("c1"), verifInt("c2")
+	w.In([]int{a1, a2}, []int{b1}, []int{c1, c2}).Return(7)
+	na := verifChoice("nargs", 4)
+	args := make([]int, na)
+	for i := 0; i < na; i++ {
+		args[i] = verifInt(vTailN[i])
+	}
+	f := vStubFunc(w).(func(...int) int)
+	got := f(args...)
+	m := false
+	switch na {
+	case 1:
+		m = b1 == args[0]
+	case 2:
+		m = verifOr(verifAnd(a1 == args[0], a2 == args[1]), verifAnd(c1 == args[0], c2 == args[1]))
+	}
+	verifAssert((got == 7) == m, "C04.variadic-in-typed.membership")
+	verifAssert(got == 7 || got == -1, "C04.variadic-in-typed.result-is-configured")
+	verifReached("C04.variadic-in-typed")
+}
